@@ -124,7 +124,6 @@ func c02FatalKind(stderr string) string {
 func c02Supervise(c *Ctx) {
 	c.Res.Rule = c02Rule
 	inflight := filepath.Join(c.Dir, "inflight.json")
-	os.Remove(inflight)
 	limit := 9 * time.Minute
 	if c.Scale > 1 {
 		limit = 85 * time.Minute
@@ -132,35 +131,49 @@ func c02Supervise(c *Ctx) {
 	if c.Replay != "" {
 		limit = 3 * time.Minute
 	}
-	r, died, tail := c02RunChild(c, c.Replay, limit)
-	if !died {
-		c.c02Merge(r)
-		return
-	}
-	// the child died: the input in flight is the failing input
-	var doc struct {
-		Case c02Case `json:"case"`
-	}
-	b, err := os.ReadFile(inflight)
-	if err != nil || json.Unmarshal(b, &doc) != nil {
-		c.Res.HarnessError = "harness child died without an input in flight: " + tail
-		return
-	}
-	kind := c02FatalKind(tail)
-	raw, _ := hex.DecodeString(doc.Case.Bytes)
-	// shrink with one child process per candidate
 	tmp := filepath.Join(c.Dir, fmt.Sprintf("shrink-%d.json", os.Getpid()))
 	defer os.Remove(tmp)
-	small := c02Shrink(raw, 40, func(cand []byte) bool {
-		d, _ := json.Marshal(map[string]any{"case": c02Case{Bytes: hex.EncodeToString(cand), Stream: doc.Case.Stream}})
+	diesOn := func(cand []byte, stream string) (bool, string) {
+		d, _ := json.Marshal(map[string]any{"case": c02Case{Bytes: hex.EncodeToString(cand), Stream: stream}})
 		os.WriteFile(tmp, d, 0o644)
 		_, died, t := c02RunChild(c, tmp, 2*time.Minute)
-		return died && c02FatalKind(t) == kind
-	})
-	os.Remove(inflight)
-	c.Res.Evaluations++
-	c.Violation("C02/fatal/"+kind, "the process running the parser on this input dies with an unrecoverable runtime error (not even recover() helps): "+tail,
-		c02Case{Bytes: hex.EncodeToString(small), Stream: doc.Case.Stream})
+		return died, t
+	}
+	for attempt := 1; attempt <= 2; attempt++ {
+		os.Remove(inflight)
+		r, died, tail := c02RunChild(c, c.Replay, limit)
+		if !died {
+			c.c02Merge(r)
+			return
+		}
+		// the child died: the input in flight is the candidate failing input
+		var doc struct {
+			Case c02Case `json:"case"`
+		}
+		b, err := os.ReadFile(inflight)
+		if err != nil || json.Unmarshal(b, &doc) != nil {
+			c.Res.Notes = append(c.Res.Notes, "harness child died without an input in flight: "+tail)
+			continue
+		}
+		raw, _ := hex.DecodeString(doc.Case.Bytes)
+		// confirm in a fresh process that it is this input (and not trouble of the test machine)
+		again, tail2 := diesOn(raw, doc.Case.Stream)
+		if !again {
+			c.Res.Notes = append(c.Res.Notes, "harness child died ("+c02FatalKind(tail)+") but the input in flight does not reproduce it; run repeated")
+			continue
+		}
+		kind := c02FatalKind(tail2)
+		small := c02Shrink(raw, 40, func(cand []byte) bool {
+			d, t := diesOn(cand, doc.Case.Stream)
+			return d && c02FatalKind(t) == kind
+		})
+		os.Remove(inflight)
+		c.Res.Evaluations++
+		c.Violation("C02/fatal/"+kind, "the process running the parser on this input dies with an unrecoverable runtime error (not even recover() helps): "+tail2,
+			c02Case{Bytes: hex.EncodeToString(small), Stream: doc.Case.Stream})
+		return
+	}
+	c.Res.HarnessError = "harness child died twice without a reproducible input (see notes)"
 }
 
 func runC02(c *Ctx) {
